@@ -145,6 +145,7 @@ pub fn run(ctx: &Ctx) -> ! {
         x.only_datasets = Some(vec!["diamond", "fan3", "counts0123", "chains"]);
         x
     }));
+    cfg.stream_share = 1.0;
     let stats = corpus::drive(
         ctx,
         &uni,
